@@ -301,10 +301,157 @@ def pair_dsum(rng):
     return A, B, C, lambda p: dict(kind="dsum")
 
 
+# ---- C14 ----------------------------------------------------------------------
+VT_EQUIV = {"sympy": ["numpy", "numpy_complex", "sparse"]}
+
+
+def pair_format(rng):
+    """Same abstract Hamiltonian, two different containers."""
+    A = base_instance(rng, k=rng.choice([1, 2, 2, 3]))
+    A["format"] = "dict"
+    B = copy.deepcopy(A)
+    B["format"] = rng.choice(["list", "symkeys", "sympy_matrix", "blockseries", "symkeys"])
+    if B["format"] == "symkeys":
+        names = ["q", "a", "m", "z"][: A["k"]]
+        rng.shuffle(names)
+        B["symnames"] = names
+    return A, B, None, lambda p: dict(kind="same")
+
+
+def pair_vtype(rng):
+    """Same abstract Hamiltonian, dense / sparse / symbolic values."""
+    A = base_instance(rng, vtype="numpy_complex")
+    B = copy.deepcopy(A)
+    B["vtype"] = rng.choice(["sympy", "sparse", "sympy"])
+    B["format"] = rng.choice(FORMATS)
+    return A, B, None, lambda p: dict(kind="same")
+
+
+def pair_designation(rng):
+    """subspace_indices vs the corresponding eigenvector matrices."""
+    A = base_instance(rng, vtype=rng.choice(["sympy", "numpy", "numpy_complex"]))
+    B = copy.deepcopy(A)
+    d = A["d"]
+    I = ident(d)
+    B["basis"] = dict(kind="unitary", M=I, Mi=I)
+    return A, B, None, lambda p: dict(kind="same")
+
+
+def pair_eigenbasis(rng):
+    """Any unitary / biorthogonal eigenbasis == rotating the Hamiltonian first."""
+    herm = rng.random() < 0.6
+    vt = rng.choice(["sympy", "numpy_complex"] if herm else ["sympy", "numpy", "numpy_complex"])
+    A = base_instance(rng, vtype=vt, hermitian_mode=herm, d=rng.choice([4, 5]) if herm else None,
+                      fdkinds=["none", "tuple", "dict"])
+    if not herm:
+        A["hermitian"] = False
+    B = copy.deepcopy(A)
+    cx = A.get("complex", False) or vt == "numpy_complex"
+    if herm:
+        Q, Qd = hermitian.dyadic_unitary(rng, A["d"], cx)
+        B["basis"] = dict(kind="unitary", M=Q, Mi=Qd)
+    else:
+        M, Mi = hermitian.unimodular_pair(rng, A["d"], cx)
+        B["basis"] = dict(kind="pairs", M=M, Mi=Mi)
+    B["complex"] = cx
+    return A, B, None, lambda p: dict(kind="same")
+
+
+def pair_analytic(rng):
+    """sympy matrix with analytic dependence (Taylor-expanded) == its Taylor coefficients as a dict."""
+    import sympy
+
+    k = rng.choice([1, 2])
+    A = base_instance(rng, vtype="sympy", k=k, N=3 if k == 2 else 4)
+    d = A["d"]
+    funcs = []  # per parameter: (name, coefficients c_1.., sympy function of the symbol)
+    table = {
+        "exp": (lambda n: Fraction(1, __import__("math").factorial(n)), lambda x: sympy.exp(x) - 1),
+        "geom": (lambda n: Fraction(1), lambda x: 1 / (1 - x) - 1),
+        "sin": (lambda n: Fraction(0) if n % 2 == 0 else Fraction((-1) ** ((n - 1) // 2), __import__("math").factorial(n)),
+                lambda x: sympy.sin(x)),
+        "log": (lambda n: Fraction((-1) ** (n + 1), n), lambda x: sympy.log(1 + x)),
+    }
+    V = [hermitian.rand_herm(rng, d, complex_=True, dens=(1, 2), amp=2, fill=1.0) for _ in range(k)]
+    A["terms"] = {}
+    expr = None
+    names = symbol_names_for(k)
+    syms = [sympy.Symbol(nm, real=True) for nm in names]
+    total = hermitian.to_sympy(hermitian.h0_user(A))
+    for j in range(k):
+        fname = rng.choice(sorted(table))
+        coef, fn = table[fname]
+        for n in range(1, A["N"] + 1):
+            c = coef(n)
+            if c != 0:
+                A["terms"][tuple(n if i == j else 0 for i in range(k))] = cscale((c, Fraction(0)), V[j])
+        total = total + fn(syms[j]) * hermitian.to_sympy(V[j])
+    A["format"] = "dict"
+    A["symnames"] = names
+    B = copy.deepcopy(A)
+    B["format"] = "analytic"
+    B["_analytic"] = (total, syms)
+    return A, B, None, lambda p: dict(kind="same")
+
+
+def symbol_names_for(k):
+    return [f"a{i}" for i in range(k)]
+
+
+def pair_projection(rng):
+    """operator_to_BlockSeries returns exactly L_i^dagger A R_j."""
+    herm = rng.random() < 0.5
+    vt = rng.choice(["sympy", "numpy_complex"])
+    A = base_instance(rng, vtype=vt, hermitian_mode=herm)
+    A["projection"] = True
+    cx = True
+    if herm:
+        Q, Qd = hermitian.dyadic_unitary(rng, A["d"], cx)
+        A["basis"] = dict(kind="unitary", M=Q, Mi=Qd)
+    else:
+        M, Mi = hermitian.unimodular_pair(rng, A["d"], cx)
+        A["basis"] = dict(kind="pairs", M=M, Mi=Mi)
+    return A, None, None, None
+
+
 KINDS = {
     "C13": [pair_scaled, pair_merged, pair_permuted, pair_subst, pair_vanishing],
+    "C14": [pair_format, pair_vtype, pair_designation, pair_eigenbasis, pair_analytic, pair_projection],
     "C15": [pair_relabel, pair_basisperm, pair_degrot, pair_conj, pair_shift, pair_scaleall, pair_dsum],
 }
+
+
+def projection_session(A, sid, p, pid):
+    """Call operator_to_BlockSeries directly and log its blocks."""
+    import warnings
+
+    import pymablock
+    from pymablock.block_diagonalization import operator_to_BlockSeries
+
+    H, extra, pmap = hermitian.present(dict(A, format="dict"))
+    des = hermitian.designation(A)
+    with warnings.catch_warnings():
+        warnings.simplefilter("ignore")
+        op = operator_to_BlockSeries(H, hermitian=A.get("hermitian", True), **des)
+    sizes = A["sizes"]
+    k, N = A["k"], A["N"]
+    ords = order_seq(k, N)
+    outB, outA = [], []
+    M, Mi = A["basis"]["M"], A["basis"]["Mi"]
+    allterms = {(0,) * k: hermitian.h0_user(A), **A["terms"]}
+    for n in ords:
+        blk, _ = hermitian.assemble(op, n, sizes, p)
+        outB.append({"Ht": blk, "U": blk, "Ud": blk})
+        raw = allterms.get(n)
+        rawm = res_m(mmul(M, mmul(raw, Mi)), p) if raw is not None else common.zeros_res(A["d"], A["d"])
+        outA.append({"Ht": rawm, "U": rawm, "Ud": rawm})
+    order = hermitian.block_order(A)
+    L = madj(Mi)
+    Rb = [[M[r][c] for c in order] for r in range(A["d"])]
+    Lb = [[L[r][c] for c in order] for r in range(A["d"])]
+    return dict(sid=sid, prop=pid, rel=dict(kind="projection", R=res_m(Rb, p), L=res_m(Lb, p)),
+                A=dict(d=A["d"], ords=[list(n) for n in ords], out=outA),
+                B=dict(d=A["d"], ords=[list(n) for n in ords], out=outB))
 
 
 def _job(args):
@@ -314,6 +461,8 @@ def _job(args):
     for attempt in range(25):
         try:
             A, B, C, relf = maker(rng)
+            if B is None:
+                return ("ok", idx, projection_session(A, idx + 1, p, pid), dict(kind=maker.__name__, A=hermitian.describe(A), B=None, C=None))
             if not hermitian.well_posed(B) or not hermitian.well_posed(A):
                 continue
             ses = dict(sid=idx + 1, prop=pid, rel=relf(p), A=run_side(A, p), B=run_side(B, p))
